@@ -35,6 +35,47 @@ theorem geometryEqual_for_conflict (g h : Geom) (tol : Option Rat) (u v : String
     have := ((geometryEqual_iff g h tol).mp hb).2.2.1 u v hg hh
     exact absurd this huv
 
+/-! ## Clause 2a: what `match_geometry` returns (soundness) -/
+
+/-- **`match_sound`**: whenever `match_geometry` returns a volume `r`,
+* the geometry of `r` equals the target (`geometry_equal(r, target, tol)` as characterised by
+  `geometryEqual_iff`: same shape, coordinate system, affine within tolerance, no conflicting frame
+  of reference), and
+* for every voxel `k` of `r`: if a voxel `i` of the source sits at the same physical position then
+  `r` carries the source value there; if no voxel of the source sits there, `r` carries the padding
+  value.
+For every source whose affine matrix is non-singular, every target, tolerance and padding value. -/
+theorem match_sound {α : Type} (src : Vol α) (tgt : Geom) (tol : Rat) (c : α) (r : Vol α)
+    (hdet : src.geom.aff.det ≠ 0) (h : matchGeometry src tgt tol c = .ok r) :
+    geometryEqual r.geom tgt (some tol) = .ok true ∧
+    ∀ k, InShape r.geom.shape k →
+      (∀ i, InShape src.geom.shape i → src.geom.toRef (toRat i) = r.geom.toRef (toRat k) → r.vox k = src.vox i) ∧
+      ((∀ i, InShape src.geom.shape i → src.geom.toRef (toRat i) ≠ r.geom.toRef (toRat k)) → r.vox k = c) := by
+  obtain ⟨_, _, _, _, _, _, _, _, _, _, hge⟩ := matchGeometry_ok src tgt tol c r h
+  obtain ⟨m, hm⟩ := matchGeometry_prov src tgt tol c r h
+  exact ⟨hge, fun k hk => hm.coincide hdet k hk⟩
+
+/-- In particular the returned volume has the target's shape and coordinate system. -/
+theorem match_shape {α : Type} (src : Vol α) (tgt : Geom) (tol : Rat) (c : α) (r : Vol α)
+    (h : matchGeometry src tgt tol c = .ok r) : (∀ a, r.geom.shape a = tgt.shape a) ∧ r.geom.cs = tgt.cs := by
+  obtain ⟨_, _, _, _, _, _, _, _, _, _, hge⟩ := matchGeometry_ok src tgt tol c r h
+  have := (geometryEqual_iff _ _ _).mp hge
+  exact ⟨this.1, this.2.1⟩
+
+/-- A target in another frame of reference or another coordinate system is refused. -/
+theorem match_refuses_conflict {α : Type} (src : Vol α) (tgt : Geom) (tol : Rat) (c : α)
+    (h : (∃ u v, src.geom.frameOfRef = some u ∧ tgt.frameOfRef = some v ∧ u ≠ v) ∨ src.geom.cs ≠ tgt.cs) :
+    matchGeometry src tgt tol c = .error .runtime := by
+  unfold matchGeometry
+  rcases h with ⟨u, v, hu, hv, huv⟩ | hcs
+  · have : forConflict src.geom tgt = true := by simp [forConflict, hu, hv, huv]
+    rw [if_pos this]
+  · by_cases hf : forConflict src.geom tgt = true
+    · rw [if_pos hf]
+    · rw [if_neg hf]
+      have : (src.geom.cs != tgt.cs) = true := by simpa using hcs
+      rw [if_pos this]
+
 /-! ## Clause 3: index mapping between two volumes -/
 
 /-- **The transformer agrees with mapping through physical space.**  Whenever it answers, every
